@@ -1,8 +1,15 @@
 package drive
 
 import (
+	"context"
 	"encoding/json"
+	"fmt"
 	"math/rand"
+	"os"
+	"os/exec"
+	"path/filepath"
+	"strings"
+	"time"
 )
 
 func init() {
@@ -26,6 +33,18 @@ func c36Shrink(raw json.RawMessage) []json.RawMessage {
 // C36: a collector history cut by Stop at a random point (crash point = any prefix), with buffered
 // traces, pending late spans, ticks and ejections before it.
 func c36Gen(r *rand.Rand, tier string, i int) any {
+	if i%12 == 4 { // shutdown while the workers are deciding (run in a child process: a crash is a finding)
+		in := collInput{Workers: 1 + r.Intn(3), T0: 1_700_000_000 * collSec, Inflight: true, ShrinkMax: 1}
+		one := 1
+		in.Tables = [][]collRule{{{Cls: &one, Drop: true}}}
+		in.Cfg = collCfg{TT: collSec, SD: collMs, SL: 0, ME: 0}
+		n := 60 + r.Intn(60)
+		for k := 0; k < n; k++ {
+			in.Ops = append(in.Ops, collOp{Op: "span", Span: &collSpan{Tid: k, Sid: k, Cls: []int{1, 1, 0}[r.Intn(3)], Pad: r.Intn(40)}})
+		}
+		in.Ops = append(in.Ops, collOp{Op: "stop", Inflight: true})
+		return in
+	}
 	if i%2 == 1 { // the whole shutdown sequence: collector + real transmissions + scripted API
 		return c36sGen(r, tier)
 	}
@@ -67,6 +86,9 @@ func c36Run(raw json.RawMessage) (Case, error) {
 	if err := json.Unmarshal(raw, &in); err != nil {
 		return Case{}, err
 	}
+	if in.Inflight {
+		return c36Inflight(raw, in)
+	}
 	res, err := collRun(in)
 	if err != nil {
 		return Case{}, err
@@ -89,4 +111,47 @@ func c36Run(raw json.RawMessage) (Case, error) {
 	}
 	return Case{Coq: "(CColl " + collCoq(res) + ")", Key: string(raw), Nontriv: res.Stopped && len(res.Obs) > 1,
 		Tags: tags, Summary: collSummary(res)}, nil
+}
+
+// c36Inflight runs the scenario in a child process (the same binary): a panic in a collector goroutine
+// ("send on closed channel" from a decision cache stopped too early, ...) kills the child, not the driver.
+func c36Inflight(raw json.RawMessage, in collInput) (Case, error) {
+	tags := []string{"scenario:stop-while-workers-are-deciding", fmt.Sprintf("workers:%d", in.Workers)}
+	if os.Getenv("VERIF_C36_CHILD") != "" {
+		res, err := collRun(in)
+		if err != nil {
+			return Case{}, err
+		}
+		if res.StopErr != "" {
+			return Case{}, fmt.Errorf("stop: %s", res.StopErr)
+		}
+		return Case{Coq: "(CColl " + collEmptyCase + ")", Key: "child"}, nil
+	}
+	dir, err := os.MkdirTemp(".", "c36child")
+	if err != nil {
+		return Case{}, err
+	}
+	defer os.RemoveAll(dir)
+	inF := filepath.Join(dir, "in.json")
+	os.WriteFile(inF, []byte(`{"input": `+string(raw)+`}`), 0o644)
+	exe, _ := os.Executable()
+	ctx, cancel := context.WithTimeout(context.Background(), 40*time.Second)
+	defer cancel()
+	cmd := exec.CommandContext(ctx, exe, "C36", "--replay", inF, "--out", filepath.Join(dir, "out.jsonl"))
+	cmd.Env = append(os.Environ(), "VERIF_C36_CHILD=1")
+	out, runErr := cmd.CombinedOutput()
+	if runErr == nil {
+		return Case{Coq: "(CColl " + collEmptyCase + ")", Key: string(raw), Nontriv: true, Tags: tags,
+			Summary: map[string]any{"scenario": "Stop while every worker is inside its send tick", "spans": len(in.Ops) - 1, "child": "clean exit"}}, nil
+	}
+	kind := 2 // Stop failed / hung / other error
+	txt := string(out)
+	if strings.Contains(txt, "panic:") || strings.Contains(txt, "fatal error:") {
+		kind = 1
+	}
+	if len(txt) > 1500 {
+		txt = txt[:1500]
+	}
+	return Case{Coq: fmt.Sprintf("(CCrash %d%%N)", kind), Key: string(raw), Nontriv: true, Tags: append(tags, "child-crashed"),
+		Summary: map[string]any{"scenario": "Stop while every worker is inside its send tick", "child_output": txt}}, nil
 }
